@@ -227,4 +227,83 @@ theorem IsGap.line_uu (o body : List Char) (ho : LineOpener o) (hnl : ∀ c ∈ 
   have hol : 1 ≤ o.length := by rcases ho with rfl | rfl <;> simp
   refine ⟨t :: ts, .cons h1 (hi.mono (by simp; omega)), by simp at hl ⊢; omega⟩
 
+/-! ### gap texts -/
+
+/-- Texts made of the items of `_`: white space characters and one-line block comments
+`/*` body `*/` (body without `*/`, without newline, not starting with `*@`). -/
+inductive UGapText : List Char → Prop
+  | nil : UGapText []
+  | ws (c : Char) (h : wsC c = true) : UGapText [c]
+  | block (body : List Char) (hb : BlockBody body) (hnl : ∀ c ∈ body, c ≠ '\n') : UGapText ('/' :: '*' :: body ++ ['*', '/'])
+  | append {a b : List Char} : UGapText a → UGapText b → UGapText (a ++ b)
+
+/-- Texts made of the items of `__`: white space, newlines, block comments (also multi-line),
+`//` and `#` comments up to and including their newline. -/
+inductive UUGapText : List Char → Prop
+  | nil : UUGapText []
+  | ws (c : Char) (h : wsC c = true) : UUGapText [c]
+  | newline : UUGapText ['\n']
+  | block (body : List Char) (hb : BlockBody body) : UUGapText ('/' :: '*' :: body ++ ['*', '/'])
+  | line (o body : List Char) (ho : LineOpener o) (hnl : ∀ c ∈ body, c ≠ '\n') : UUGapText (o ++ (body ++ ['\n']))
+  | append {a b : List Char} : UUGapText a → UUGapText b → UUGapText (a ++ b)
+
+theorem UGapText.isGap {g} (h : UGapText g) : IsGap uBody g := by
+  induction h with
+  | nil => exact IsGap.nil _
+  | ws c h => exact IsGap.wsChar_u c h
+  | block body hb hnl => exact IsGap.block_u body hb hnl
+  | append _ _ ih1 ih2 => exact ih1.append ih2
+
+theorem UUGapText.isGap {g} (h : UUGapText g) : IsGap uuBody g := by
+  induction h with
+  | nil => exact IsGap.nil _
+  | ws c h => exact IsGap.wsChar_uu c h
+  | newline => exact IsGap.newline_uu
+  | block body hb => exact IsGap.block_uu body hb
+  | line o body ho hnl => exact IsGap.line_uu o body ho hnl
+  | append _ _ ih1 ih2 => exact ih1.append ih2
+
+/-- Every `_` text is a `__` text. -/
+theorem UGapText.toUU {g} (h : UGapText g) : UUGapText g := by
+  induction h with
+  | nil => exact .nil
+  | ws c h => exact .ws c h
+  | block body hb _ => exact .block body hb
+  | append _ _ ih1 ih2 => exact .append ih1 ih2
+
+/-- The first character of a text. -/
+def HeadP (P : Char → Prop) (x : List Char) : Prop := ∀ c r, x = c :: r → P c
+
+theorem HeadP.nil {P} : HeadP P [] := fun _ _ h => by cases h
+theorem HeadP.cons {P} {c : Char} {r : List Char} (h : P c) : HeadP P (c :: r) := fun c' r' e => by
+  injection e with e1 _; rw [← e1]; exact h
+theorem HeadP.mono {P Q : Char → Prop} {x} (h : HeadP P x) (hpq : ∀ c, P c → Q c) : HeadP Q x := fun c r e => hpq c (h c r e)
+theorem HeadP.append {P} {a b : List Char} (ha : HeadP P a) (hb : HeadP P b) : HeadP P (a ++ b) := by
+  cases a with
+  | nil => simpa using hb
+  | cons c r =>
+    intro c' r' e
+    simp only [List.cons_append, List.cons.injEq] at e
+    exact ha c' r (by rw [e.1])
+theorem HeadP.and {P Q : Char → Prop} {x} (h1 : HeadP P x) (h2 : HeadP Q x) : HeadP (fun c => P c ∧ Q c) x :=
+  fun c r e => ⟨h1 c r e, h2 c r e⟩
+
+/-- A gap text starts with a character that starts a gap item (not a token character). -/
+theorem UUGapText.head {g} (h : UUGapText g) : HeadP (fun c => tokC c = false) g := by
+  induction h with
+  | nil => exact HeadP.nil
+  | ws c h => exact HeadP.cons (by simp [tokC, h])
+  | newline => exact HeadP.cons (by decide)
+  | block body hb => exact HeadP.cons (by decide)
+  | line o body ho hnl => rcases ho with rfl | rfl <;> exact HeadP.cons (by decide)
+  | append _ _ ih1 ih2 => exact ih1.append ih2
+
+/-- A `_` text starts with white space or `/`. -/
+theorem UGapText.head {g} (h : UGapText g) : HeadP (fun c => wsC c = true ∨ c = '/') g := by
+  induction h with
+  | nil => exact HeadP.nil
+  | ws c h => exact HeadP.cons (Or.inl h)
+  | block body hb _ => exact HeadP.cons (Or.inr rfl)
+  | append _ _ ih1 ih2 => exact ih1.append ih2
+
 end FV.PegIdl
